@@ -190,4 +190,16 @@ CHECKS["C18"] = {
     "assumptions": COMMON_ASSUMPTIONS + ["sentinel-core is built with feature ds_consul for this monitor only (the parser is compiled only with a ds_* feature)"],
 }
 
+CHECKS["C20"] = {
+    "package": "towerh", "bin": "c20", "flavor": "seq", "replay": "rerun",
+    "shards": {"quick": 4, "thorough": 16},
+    "level": "exploration",
+    "technique": "runtime monitoring: in-flight ledger oracle around sentinel_tower::SentinelService with a scripted, call-counting inner service; futures polled by hand (no-op waker), several pending at once; fault sequences = inner outcomes",
+    "rule": "cases = SentinelService (server or client role, with or without fallback) over an inner service scripted per request as {ready Ok, ready Err, pending 1-3 polls then Ok / Err}, under an isolation rule with threshold 1..3 on the extracted resource; 5..60 operations {start a request, poll one of the pending futures, (1 case in 5) drop a pending future}. Non-trivial iff some request was rejected and some admitted request was released; distinct = distinct (threshold, fallback?, role, rejected?, released after Err?, released after Ok?, max concurrently pending, drops?)",
+    "level_text": "Per request: inner called exactly once iff the ledger says the isolation rule admits it, never for a rejected one, which gets the fallback response or an error; an admitted request returns the inner result; after every operation the resource's in-flight count equals the number of admitted requests whose inner future has not resolved yet - so it returns to the previous value on Ok and on Err; exploration.",
+    "level_note": "Only middleware/tower is exercised (tonic 0.8 is not available offline; its interceptor releases the entry before the call and has no inner future). Dropping a future before completion is driven and reported under coverage.dropped_future_observations, not asserted.",
+    "design_ref": "DESIGN.md §5 C20",
+    "assumptions": ["runtime monitoring: the verdict covers only the executions this run produced", "harness workspace patches crates.io sentinel-core to /repo/sentinel-core so that /repo/middleware/tower is built against the working tree"],
+}
+
 NOT_APPLICABLE = {}
